@@ -200,6 +200,11 @@ def r1_coverage(ctx):
               "the digest is not computed from the encoded settings list")
     # direct appends outside the settings loop
     loops = [n for n in fn.body if isinstance(n, ast.For)]
+    if not any("FP_DEFAULT" in norm(lp.iter) for lp in loops) and any(
+            isinstance(g, ast.comprehension) and "FP_DEFAULT" in norm(g.iter)
+            for g in ast.walk(fn)):
+        raise Undecided("_hash builds the hashed list from a comprehension "
+                        "over FP_DEFAULT whose parts are not plain lists")
     direct = []
     for st in fn.body:
         if isinstance(st, ast.Expr) and isinstance(st.value, ast.Call) and \
@@ -234,6 +239,10 @@ def r1_coverage(ctx):
                   f"by the '{ax}' setting")
     # the loop over the settings
     sl = [lp for lp in loops if "FP_DEFAULT" in norm(lp.iter)]
+    if not sl and any(isinstance(g, ast.comprehension) and "FP_DEFAULT"
+                      in norm(g.iter) for g in ast.walk(fn)):
+        raise Undecided("_hash iterates over FP_DEFAULT in a comprehension "
+                        "whose element is not a plain setting read")
     if not sl:
         ctx.fail(fn, "loop over FP_DEFAULT in _hash",
                  "_hash no longer iterates over every key of FP_DEFAULT")
